@@ -51,6 +51,10 @@ def plan(tier, seed):
     parts = 4 if tier == "quick" else 16
     for i in range(parts):
         specs.append({"kind": "convert", "plen": plen, "slen": slen, "part": i, "parts": parts})
+    # a second alphabet with the characters other glob dialects give a meaning to (?, [, ], **, a trailing slash, $, ^)
+    e = (3, 3) if tier == "quick" else (5, 4)
+    for i in range(2 if tier == "quick" else 8):
+        specs.append({"kind": "convert", "plen": e[0], "slen": e[1], "part": i, "parts": 2 if tier == "quick" else 8, "alpha_p": "a*?[]/$^", "alpha_s": "ab?[]/$^"})
     return specs
 
 
@@ -126,10 +130,11 @@ def convert_exhaustive(spec, acc):
     from pytestarch.eval_structure_generation.file_import.file_filter import FileFilter
     from pytestarch.utils.partial_match_to_regex_converter import convert_partial_match_to_regex
 
-    strings = [""] + ["".join(t) for n in range(1, spec["slen"] + 1) for t in itertools.product(ALPHA_S, repeat=n)]
+    alpha_p, alpha_s = spec.get("alpha_p", ALPHA_P), spec.get("alpha_s", ALPHA_S)
+    strings = [""] + ["".join(t) for n in range(1, spec["slen"] + 1) for t in itertools.product(alpha_s, repeat=n)]
     idx = 0
     for n in range(0, spec["plen"] + 1):
-        for t in itertools.product(ALPHA_P, repeat=n):
+        for t in itertools.product(alpha_p, repeat=n):
             idx += 1
             if idx % spec["parts"] != spec["part"]:
                 continue
